@@ -541,6 +541,21 @@ Fixpoint find_default (defaults : list (node * node)) (key : node) : option node
   | (name, d) :: r => if default_matches name key then Some d else find_default r key
   end.
 
+(* Vue never calls the default of a prop whose type is exactly Function: the factory the
+   static analysis wrapped around the written value is removed again (every stored default
+   that is an arrow is such a wrapper; getters keep their block body) *)
+Definition unwrap_function_default (types : list (option str)) (d : node) : node :=
+  match types with
+  | [Some t] =>
+      if sq "Function" t then
+        match d with
+        | Arrow _ [] b _ _ _ _ => match b with Block _ _ => d | _ => b end
+        | _ => d
+        end
+      else d
+  | _ => d
+  end.
+
 Definition build_props_type (ty : node) (defaults : list (node * node)) (s : st) : node * st :=
   let '(elems, s) := rte type_fuel ty s in
   let '(irs, s) := fold_left ir_step elems ([], s) in
@@ -554,7 +569,7 @@ Definition build_props_type (ty : node) (defaults : list (node * node)) (s : st)
                              end);
                          KV (IdName (s_ "required")) (Bool (ir_required ir))]
                         ++ match find_default defaults (ir_key ir) with
-                           | Some d => [KV (IdName (s_ "default")) d]
+                           | Some d => [KV (IdName (s_ "default")) (unwrap_function_default (ir_types ir) d)]
                            | None => []
                            end))) irs), s).
 
@@ -599,7 +614,6 @@ Definition lit_prop_name (k : node) : option node :=
   | IdName _ | Str _ _ | Num _ _ => Some k
   | Computed e =>
       match e with
-      | Ident sy _ _ => Some (IdName sy)
       | Str _ _ | Num _ _ => Some e
       | _ => if is_ty "BigIntLiteral" e then Some e else None
       end
@@ -732,16 +746,37 @@ Definition extract_emits_type (arg0 : node) (s : st) : option node * st :=
   end.
 
 (* ---- inject_define_component_option ----------------------------------------------------- *)
+(* object_has_option: the key in any spelling - identifier / string key of a key-value,
+   getter or method, or a shorthand property *)
+Definition key_is (name : String.string) (k : node) : bool :=
+  match k with IdName s => sq name s | Str v _ => sq name v | _ => false end.
+Arguments key_is _%string_scope _.
+
 Definition has_ident_key (name : String.string) (props : list node) : bool :=
-  existsb (fun p => match p with KV (IdName k) _ => sq name k | _ => false end) props.
+  existsb (fun p => match p with
+                    | KV k _ => key_is name k
+                    | Ident s _ _ => sq name s
+                    | NObj _ =>
+                        if is_ty "GetterProperty" p || is_ty "MethodProperty" p then key_is name (tf "key" p)
+                        else false
+                    | _ => false
+                    end) props.
 Arguments has_ident_key _%string_scope _.
+
+(* insert before the first spread (or at the end) *)
+Fixpoint insert_before_spread (kv : node) (props : list node) : list node :=
+  match props with
+  | [] => [kv]
+  | (Spread _) as p :: r => kv :: p :: r
+  | p :: r => p :: insert_before_spread kv r
+  end.
 
 Definition inject_option (args : list node) (name : String.string) (value : node) : list node :=
   let kv := KV (IdName (s_ name)) value in
   match args with
   | a0 :: Elem true _ :: _ => args
   | a0 :: Elem false (Obj props) :: r =>
-      if has_ident_key name props then args else a0 :: Elem false (Obj (props ++ [kv])) :: r
+      if has_ident_key name props then args else a0 :: Elem false (Obj (insert_before_spread kv props)) :: r
   | a0 :: Elem false other :: r => a0 :: Elem false (Obj [kv; Spread other]) :: r
   | [a0] => [a0; Elem false (Obj [kv])]
   | [] => []                                  (* no first argument: nothing is injected *)
